@@ -329,7 +329,14 @@ func indexValidReferrer(repo Repo, index types.Index, locked bool) (bool, digest
 	var subject digest.Digest
 	valid := true
 	responses := map[digest.Digest][]types.Descriptor{}
+	seen := map[digest.Digest]bool{}
 	for _, desc := range index.Manifests {
+		if seen[desc.Digest] {
+			// a referrer listed more than once is only added once, the response needs to be regenerated
+			valid = false
+			continue
+		}
+		seen[desc.Digest] = true
 		rdr, err := repo.blobGet(desc.Digest, locked)
 		if err != nil {
 			// errors result in entry being dropped from response list
